@@ -234,6 +234,36 @@ pub(crate) async fn check_auth<'a>(
     }
 }
 
+/// Verification hook (compiled only with `--cfg sneldb_verif`): drives the crate-private
+/// connection gate `check_auth` / `TcpAuthState` without a socket.
+#[cfg(sneldb_verif)]
+pub mod verif {
+    use super::{AuthManager, TcpAuthState, check_auth};
+    use std::sync::Arc;
+
+    /// One connection's authentication state.
+    pub struct Gate(TcpAuthState);
+
+    impl Gate {
+        pub fn new(auth_manager: Option<Arc<AuthManager>>, client_ip: String) -> Self {
+            Gate(TcpAuthState::new(auth_manager, client_ip))
+        }
+
+        /// The user the connection authenticated as (after a successful AUTH).
+        pub fn user_id(&self) -> Option<String> {
+            self.0.user_id().map(|s| s.to_string())
+        }
+
+        /// `check_auth` on one line: `None` = rejected, otherwise
+        /// (command text to parse, authenticated user id, session token of an AUTH).
+        pub async fn check(&mut self, line: &str) -> Option<(String, Option<String>, Option<String>)> {
+            check_auth(line, &mut self.0)
+                .await
+                .map(|(cmd, _, user, token)| (cmd.to_string(), user, token))
+        }
+    }
+}
+
 pub async fn run_tcp_server(ctx: Arc<FrontendContext>) -> anyhow::Result<()> {
     let addr = &CONFIG.server.tcp_addr;
 
